@@ -29,7 +29,7 @@ ENCODED = [watching.infinite_watch, watching.continuous_watch, watching.watch_ob
            orchestration.spawn_missing_watchers, orchestration.spawn_missing_peerings, orchestration.orchestrator]
 META = {
     'bounds': 'H1: one resource/namespace, one object, <=3 changes at symbolic gaps, <=3 connections with a symbolic fault each (EOF, '
-              'connection error, timeout, ERROR 410, 429 on connect, unknown ERROR, BOOKMARK then EOF) after a symbolic number of '
+              'connection error, timeout, ERROR 410, 429 on connect, unknown ERROR, BOOKMARK then EOF, an event without any version then EOF) after a symbolic number of '
               'delivered events, optional compaction (410 for an old version), one pause/resume window at symbolic instants; gaps and pause instants <= 30 s; '
               'the inactivity timeout is concrete per cell: 10000 s (never fires) or 2 s with gaps <= 5 s (fires between changes). '
               'H2: 2 resources x 2 namespaces (+cluster-wide), <=3 insight revisions with symbolic membership, peering on/off. '
@@ -40,7 +40,7 @@ META = {
     'assumptions': ['the API server delivers the changes after resourceVersion v in order, or answers 410 if v is compacted'],
 }
 RESOURCE = make_resource()
-FAULTS = ['eof', 'connerr', 'timeout', 'gone410', 'too_many', 'unknown_error', 'bookmark_eof']
+FAULTS = ['eof', 'connerr', 'timeout', 'gone410', 'too_many', 'unknown_error', 'bookmark_eof', 'none', 'versionless_eof']
 
 
 class FakeApi:
@@ -111,6 +111,10 @@ class FakeApi:
                 if name == 'bookmark_eof':
                     yield {'type': 'BOOKMARK', 'object': {'metadata': {'resourceVersion': str(cursor)}}}
                     return
+                if name == 'versionless_eof':
+                    # an event that carries no version at all (nothing to learn from it), then the connection ends
+                    yield {'type': 'BOOKMARK', 'object': {'kind': 'KopfExample', 'metadata': {}}}
+                    return
             if pending:
                 rv, o = pending[0]
                 cursor = rv
@@ -152,6 +156,9 @@ def run_watch(gaps, faults, after, compact_all, pause_at, pause_len, inactivity=
                 if ev is watching.Bookmark.LISTED:
                     seen.append((loop.time(), 'LISTED', None))
                     fake.trace.append(('yield', 'LISTED', None))
+                elif ev['object'].get('metadata', {}).get('resourceVersion') is None:
+                    seen.append((loop.time(), 'NOVERSION', None))
+                    fake.trace.append(('yield', 'NOVERSION', None))
                 else:
                     seen.append((loop.time(), ev['type'], int(ev['object']['metadata']['resourceVersion'])))
                     fake.trace.append(('yield', ev['type'], int(ev['object']['metadata']['resourceVersion'])))
@@ -191,7 +198,7 @@ def h_watch(g0: int, g1: int, g2: int, f0: int, f1: int, f2: int, a0: int, a1: i
             has_pause: bool, pause_at: int, pause_len: int, inactivity: int) -> bool:
     """
     pre: g0 >= 0 and g1 >= 0 and g2 >= 0 and inactivity >= 1
-    pre: 0 <= f0 <= 7 and 0 <= f1 <= 7 and 0 <= f2 <= 7 and 0 <= a0 <= 2 and 0 <= a1 <= 2 and 0 <= a2 <= 2
+    pre: 0 <= f0 <= 8 and 0 <= f1 <= 8 and 0 <= f2 <= 8 and 0 <= a0 <= 2 and 0 <= a1 <= 2 and 0 <= a2 <= 2
     pre: pause_at >= 0 and pause_len >= 1
     post: _ == True
     """
@@ -506,7 +513,8 @@ def obligations():
     # quick: one fault kind per cell at a pinned position, symbolic change instants (gaps <= 30 s). The inactivity timer is
     # concrete per cell (10000 s = never fires within the horizon; 2 s with gaps <= 5 s = fires between changes): every
     # further period of a periodic timer inside a symbolic gap is another case split, so it cannot stay unbounded
-    for (f0, a0, f1, a1) in ((0, 1, none, 0), (1, 0, none, 0), (2, 1, 0, 1), (3, 1, none, 0), (4, 0, none, 0), (5, 1, none, 0), (6, 1, 3, 0)):
+    for (f0, a0, f1, a1) in ((0, 1, none, 0), (1, 0, none, 0), (2, 1, 0, 1), (3, 1, none, 0), (4, 0, none, 0), (5, 1, none, 0), (6, 1, 3, 0),
+                             (8, 1, none, 0), (8, 0, 2, 1)):
         obs.append(Ob('h_watch', {'faults': 2, 'changes': 2, 'inactivity': 10000, 'pin': {'f0': f0, 'a0': a0, 'f1': f1, 'a1': a1}},
                       tiers=('quick',), timeout=900, path_timeout=300))
     obs.append(Ob('h_watch', {'faults': 1, 'changes': 2, 'inactivity': 2, 'gap_max': 5, 'pin': {'f0': none, 'a0': 0}}, tiers=('quick',),
@@ -517,7 +525,7 @@ def obligations():
                   timeout=900, path_timeout=300))
     obs.append(Ob('h_watch', {'faults': 2, 'changes': 2, 'pause': True, 'inactivity': 10000}, tiers=('quick', 'thorough'), timeout=600,
                   path_timeout=300, twins=['raised', 'relisted', 'paused', 'resumed'], main=False))
-    F = list(range(8))
+    F = list(range(7)) + [8, none]
     obs += split(Ob('h_watch', {'faults': 2, 'changes': 2, 'inactivity': 10000}, timeout=1800, path_timeout=300, tiers=('thorough',)),
                  f0=F, f1=[none, 0, 3, 5], a0=[0, 1], a1=[0, 1])
     obs += split(Ob('h_watch', {'faults': 1, 'changes': 3, 'compaction': True, 'inactivity': 10000}, timeout=1800, path_timeout=300,
